@@ -742,3 +742,6 @@ def run(rep, program: Program, tier: str) -> None:
         return c02.rule_r4(rep, program, runs, prop=PROP, rule="R8")
 
     rep.isolate(_r8)
+    from . import transim
+
+    rep.isolate(transim.rule, rep, program, PROP, "R11")
